@@ -379,12 +379,23 @@ contract(
     returns=lambda self: Tup(Slice(Int(), Int(), None), Slice(Int(), Int(), None)),
 )
 
+def _vt_norm_idx(i, K):
+    """numpy-style tile index: counted from the end when negative"""
+    return Ite(i < 0, i + K, i)
+
+
 contract(
     f"{ROI}:VariableSizedTiles.tile_shape",
     ["C04"],
-    inputs=[dict(self=VTILES(), idx=Tup(Int(ge=0), Int(ge=0))), dict(self=VTILES(), idx=Build(f"{TYPES}:Index2d", x=Int(ge=0), y=Int(ge=0)))],
-    requires=[lambda self: wf_vtiles(self), lambda self, idx: And(*[i < K for i, (o, K) in zip(_idx_yx(idx), vaxes(self))])],
-    ensures=[("advertised shape is the size of the tile's region", lambda self, idx, result: And(*[d == _oget(o, i + 1) - _oget(o, i) for d, i, (o, K) in zip(result.yx, _idx_yx(idx), vaxes(self))]))],
+    inputs=[dict(self=VTILES(), idx=Tup(Int(), Int())), dict(self=VTILES(), idx=Build(f"{TYPES}:Index2d", x=Int(), y=Int()))],
+    requires=[lambda self: wf_vtiles(self)],
+    raises=[(IndexError, lambda self, idx: Not(And(*[And(0 <= _vt_norm_idx(i, K), _vt_norm_idx(i, K) < K) for i, (o, K) in zip(_idx_yx(idx), vaxes(self))])))],
+    ensures=[
+        (
+            "advertised shape is the size of the tile's region (indexes from the end allowed, exactly like __getitem__); never negative",
+            lambda self, idx, result: And(*[And(d == _oget(o, _vt_norm_idx(i, K) + 1) - _oget(o, _vt_norm_idx(i, K)), d >= 0) for d, i, (o, K) in zip(result.yx, _idx_yx(idx), vaxes(self))]),
+        )
+    ],
     returns=lambda self: SHAPE2D(0),
 )
 
